@@ -254,11 +254,11 @@ func main() {
 			// watchdog: confirm the suspect in a fresh process with a larger budget
 			sp, _ := os.ReadFile(outs[k] + ".suspect")
 			if len(sp) > 0 {
-				confirmed := confirmHang(bin, filepath.Join(hdir, pkg), id, string(sp), cfg.MemKB)
-				if confirmed {
-					violations = append(violations, violation{Sub: "hang", Replay: string(sp), Msg: "case does not terminate within the confirmation budget"})
-				} else {
-					inconclusive = append(inconclusive, fmt.Sprintf("shard %d hit the per-case watchdog but the case terminates when replayed alone", k))
+				switch verdict, detail := confirmHang(bin, filepath.Join(hdir, pkg), id, string(sp), cfg.MemKB); verdict {
+				case "hang", "crash", "fails":
+					violations = append(violations, violation{Sub: verdict, Replay: string(sp), Msg: detail})
+				default:
+					inconclusive = append(inconclusive, fmt.Sprintf("shard %d hit the per-case watchdog but the case passes when replayed alone", k))
 				}
 			}
 		} else if !so.Done {
@@ -509,7 +509,7 @@ func runShard(bin, dir, id, tier string, k, nsh int, seed uint64, out, replay st
 	return code, buf.String()
 }
 
-func confirmHang(bin, dir, id, suspect string, memKB int64) bool {
+func confirmHang(bin, dir, id, suspect string, memKB int64) (verdict, detail string) {
 	ctx, cancel := context.WithTimeout(context.Background(), 16*time.Minute)
 	defer cancel()
 	sh := fmt.Sprintf("ulimit -v %d 2>/dev/null; exec %q -test.run '^TestCheck$' -test.timeout 15m -test.count 1", memKB, bin)
@@ -517,13 +517,28 @@ func confirmHang(bin, dir, id, suspect string, memKB int64) bool {
 	cmd.Dir = dir
 	cmd.Env = append(os.Environ(), "VERIF_REPLAY="+suspect, "VERIF_ROOT="+root, "VERIF_NOWATCHDOG=1", "VERIF_OUT=")
 	out, err := cmd.CombinedOutput()
-	if ctx.Err() != nil {
-		return true
+	switch {
+	case ctx.Err() != nil, err != nil && bytes.Contains(out, []byte("test timed out")):
+		return "hang", "case does not terminate within the confirmation budget"
+	case err == nil:
+		return "passes", ""
 	}
-	if err != nil && bytes.Contains(out, []byte("test timed out")) {
-		return true
+	for _, mark := range []string{"fatal error: ", "runtime: out of memory", "cannot allocate memory", "signal: killed", "stack exceeds"} {
+		if i := bytes.Index(out, []byte(mark)); i >= 0 {
+			return "crash", "replayed alone in a fresh process the case kills the process: " + firstLine(string(out[i:]))
+		}
 	}
-	return false
+	return "fails", "replayed alone the case fails: " + tail(string(out), 600)
+}
+
+func firstLine(s string) string {
+	if i := strings.IndexByte(s, '\n'); i >= 0 {
+		s = s[:i]
+	}
+	if len(s) > 300 {
+		s = s[:300]
+	}
+	return s
 }
 
 // fuzzTargets lists native fuzz targets declared in FUZZ.txt of the package:
